@@ -107,7 +107,7 @@ def step (st : St) (op : String) (args : List String) : Option (St × String) :=
   | _, _ => none
 where
   failTok? (s : String) : Option Bool :=
-    if s = "0" then some false else if s = "1" ∨ s = "2" ∨ s = "3" then some true else none
+    if s = "0" then some false else if s = "1" ∨ s = "2" ∨ s = "3" ∨ s = "4" then some true else none
   flow (st : St) (r : Option HashInput) (fail : Bool) : St × String :=
     match r with
     | none => (st, "err")
